@@ -3,6 +3,7 @@
 All primitives work on the *pre-coroutine-lowering* MIR: an `async fn` body is one CFG whose
 `.await`s are poll loops with `Yield`; dominance across awaits is therefore meaningful.
 """
+import json
 from collections import defaultdict, deque
 
 # discriminant values of std enums
@@ -357,7 +358,10 @@ class Body:
                 elif "promoted" in o:
                     out.add(("promoted", o["promoted"]))
                 else:
-                    out.add(("const", o.get("def"), o.get("val")))
+                    v = o.get("val")
+                    if isinstance(v, (dict, list)):
+                        v = json.dumps(v, sort_keys=True)
+                    out.add(("const", o.get("def"), v))
 
         def from_place(p, path, d):
             l = p["l"]
